@@ -4,6 +4,7 @@ import itertools
 from driver.common import Case
 
 ID = "C09"
+NEEDS_BINARY = True
 LEVEL_TEXT = ('Lean theorems, for all inputs (induction, no bound on lengths or scores). VALIDITY: sw_valid — for ANY score matrix, '
               'ANY trace matrix, any end cell and both stop rules, what the model of backTrack_SW returns has rows of equal '
               'length (= the reported length), no all-gap column, ungapped rows exactly seq1[start1..end1] and '
@@ -240,6 +241,25 @@ def gen(rng, tier):
         alpha = rng.choice([AMINO[:20], "ACGTacgt", "AaCc"])
         s1, s2 = rand_pair(rng, alpha, 3, 30)
         yield sw_case("mm", rand_scheme(rng, den), s1, s2, "rand-mm-protein-or-mixed-case", den)
+    # ---- the command: goalign sw on the built binary against the aligner model (flags on their own and together,
+    # alignment on stdout, positions / score / counts / picture in the log) ---------------------------------------------
+    for _ in range(60 if not thorough else 600):
+        alpha = rng.choice(["ACGT", "ACGT", "ACGTN", AMINO[:20]])
+        s1, s2 = rand_pair(rng, alpha, 4, 40)
+        if rng.random() < 0.5:
+            # two long indels, one per sequence: gaps of length >= 2 in both rows
+            core = "".join(rng.choice(alpha) for _ in range(36))
+            ins = lambda: "".join(rng.choice(alpha) for _ in range(rng.randint(2, 9)))
+            s1 = core[:12] + ins() + core[12:]
+            s2 = core[:24] + ins() + core[24:]
+        fl = []
+        for f, vals in (("--gap-open", ["-10", "-12", "-3", "-5.5", "-20"]), ("--gap-extend", ["-0.5", "-1", "-3", "-2.5", "-6"]),
+                        ("--match", ["1", "5", "2.5"]), ("--mismatch", ["-1", "-4", "-2.5"])):
+            if rng.random() < 0.4:
+                fl += [f, rng.choice(vals)]
+        if rng.random() < 0.7:
+            fl += ["-l", "sw.log"]
+        yield Case("cli_libf", [">a|%s|>b|%s|" % (s1, s2), "_", "sw"] + fl, True, "cli-sw")
     # ---- error path, constructor choices, out-of-quantifier schemes (correspondence only) --------
     for _ in range(N // 5):
         alpha = rng.choice(["ACGT-", "ACGTJ", "ACGU" + "QE", "ACGT*", "WELK*O", "ACGT?.", "ACGT1"])
